@@ -141,6 +141,7 @@ class VM:
 
         self.start_time: Optional[float] = None
         self.instruction_count = 0
+        self.memory_base = 0  # bytes already accounted by enclosing VMs (nested eval)
 
         # Exception handling
         self.exception: Optional[JSValue] = None
@@ -179,7 +180,9 @@ class VM:
         # Check memory limit (approximate)
         if self.memory_limit:
             # Rough estimate: 100 bytes per stack item
-            mem_used = len(self.stack) * 100 + len(self.call_stack) * 200
+            mem_used = (
+                self.memory_base + len(self.stack) * 100 + len(self.call_stack) * 200
+            )
             if mem_used > self.memory_limit:
                 raise MemoryLimitError("Memory limit exceeded")
 
